@@ -245,7 +245,8 @@ def wide_checks(chk, rng, found):
         for name, p in (("ConFIG", {"pref": None}), ("ConFIG", {"pref": [F(1), F(3)]}), ("IMTLG", {}),
                         ("AlignedMTL", {"pref": None}), ("AlignedMTL", {"pref": [F(1), F(3)]}), ("Mean", {})):
             base = call(name, p, J, "f64")
-            for z in (2 ** 17, 2 ** 23 + 2 ** 20):
+            big = chk.tier != "quick" or (J[0][0] == 1 and p.get("pref") is None and name != "Mean")
+            for z in ((2 ** 17, 2 ** 23 + 2 ** 20) if big else (2 ** 17,)):
                 t = torch.zeros(2, 3 + z, dtype=torch.float32)
                 t[:, :3] = A.to_tensor(J, "f32")
                 o = A.impl_call(name, p, None, "f32", tensor=t)
